@@ -31,7 +31,7 @@ class CoopAbort(BaseException):
 
 
 class CoopLock:
-    def __init__(self, name=None, ctl=None):
+    def __init__(self, *args, name=None, ctl=None, **kw):
         self.ctl = ctl or CTL
         self.name = name
         self.owner = None
@@ -57,6 +57,21 @@ class CoopLock:
 
     def __exit__(self, *a):
         self.release()
+
+
+class CoopSerializableLock(CoopLock):
+    """Stands in for dask.utils.SerializableLock (the name is rebound in the module namespace, so whatever lock objects
+    the code creates, whenever, are cooperative).  Constructing one while a schedule is running is itself a yield point
+    ("new_lock"): a check-then-create sequence in the code under test can be pre-empted between the check and the
+    assignment of the new lock."""
+
+    def __init__(self, *args, **kw):
+        super().__init__(*args, **kw)
+        self.serial = len([l for l in self.ctl.locks if isinstance(l, CoopSerializableLock)]) if self.ctl is not None else 0
+        if self.name is None:
+            self.name = "L" if self.serial <= 1 else f"L{self.serial}"
+        if self.ctl is not None and self.ctl.running and not self.ctl.abort:
+            self.ctl.yield_op(("new_lock", self))
 
 
 class CoopCondition:
@@ -111,6 +126,8 @@ def install(module, ctl):
     module.Lock = CoopLock
     module.Condition = CoopCondition
     module.sleep = coop_sleep
+    if hasattr(module, "SerializableLock"):
+        module.SerializableLock = CoopSerializableLock
 
 
 class Rec:
@@ -143,7 +160,7 @@ class Controller:
     def yield_op(self, desc):
         if self.abort or not self.running:
             # unwinding after an abandoned run (or used outside a run): operations are no-ops
-            return False if desc[0] in ("release", "exit", "wait_begin", "notify", "notify_all") else True
+            return False if desc[0] in ("release", "exit", "wait_begin", "notify", "notify_all", "f_begin", "f_end", "new_lock") else True
         rec = self.recs[self.current]
         rec.pending = desc
         rec.ident = threading.get_ident()
@@ -201,8 +218,8 @@ class Controller:
             return [0]
         if k == "notify":
             return list(range(len(d[1].waiters))) or [0]
-        if k == "f_end":
-            return [0, 1] if faults else [0]
+        if k == "f_end" or k == "f_begin":
+            return [0, 1] if faults else [0]  # 1 = the primitive raises (f_begin: at submission, f_end: from result())
         return [0]
 
     def transitions(self, faults=True):
@@ -263,8 +280,8 @@ class Controller:
             else:
                 ans = False
                 c.waiters.clear()
-        elif k == "f_end":
-            ans = choice == 1  # True = the primitive job raises
+        elif k == "f_end" or k == "f_begin":
+            ans = choice == 1  # True = the primitive raises here
         rec.answer = ans
         rec.nops += 1
         rec.pending = None
